@@ -65,7 +65,8 @@ def describe(c):
                 config=dict(MaxRetries=cf['mr'], InitialInterval_ns=cf['init'], MaxInterval_ns=cf['maxi'], Multiplier='%d/%d' % tuple(cf['mult']),
                             MaxElapsedTime_ns=cf['me'], RandomizationFactor='%d/%d' % tuple(cf['rf']), OnRetryHook=cf['hook'], Logger=cf['log']),
                 handler_script=[('%d msgs%s%s' % (s['outs'], ' + error' if s['err'] else '', (' after %sms' % ms(s['sleep'])) if s['sleep'] else '')) for s in c['script']],
-                cancel=['none', 'by the handler during attempt %d' % c['cancelat'], 'by another goroutine %sms after attempt %d' % (ms(c['canceldelay']), c['cancelat'])][c['cancelkind']],
+                cancel=['none', 'by the handler during attempt %d' % c['cancelat'], 'by another goroutine %sms after attempt %d' % (ms(c['canceldelay']), c['cancelat']),
+                        'Router.Close() %sms after attempt %d (message context ends with the subscription)' % (ms(c['canceldelay']), c['cancelat'])][c['cancelkind']],
                 start_delay_ms=ms(c['startdelay']), observed=tr, returned_msgs=c['outs'], returned_err=c['err'], returned_at_ms=ms(c['tret']),
                 cancel_window_ms=[ms(c['cpre']), ms(c['cpost'])] if c['cpre'] >= 0 else None)
 
@@ -133,11 +134,11 @@ def run(ctx):
         if rnd == 0 and good:
             by = collections.OrderedDict()
             for c in good:
-                if sum(1 for e in c['trace'] if e[0] == 0) > 2: by.setdefault(c['family'], c)
-            for fam in ('concurrent', 'cancel-in-attempt/long-wait', 'max-elapsed/slow-handler', 'router'):
+                if sum(1 for e in c['trace'] if e[0] == 0) > 2 or c['family'] == 'router-close': by.setdefault(c['family'], c)
+            for fam in ('concurrent', 'router-close', 'max-elapsed/slow-handler', 'router'):
                 if fam in by: res.sample(describe(by[fam]))
     res.rule = ('one case = one message through a real middleware.Retry value; 1..6 messages share ONE wrapped handler, sequentially or concurrently with staggered '
-                'starts, or as handler middleware of a real Router with 2..5 messages in flight; configurations MaxRetries {-3,-1,0,1..8} x InitialInterval 0..8 ms (+odd ns) x MaxInterval 0..40 ms x Multiplier {1/2,1,5/4,3/2,2,9/4,3,4,..512} x '
+                'starts, or as handler middleware of a real Router with 2..5 messages in flight, or inside a real Router over a real GoChannel that is closed while Retry sleeps in a long back-off; configurations MaxRetries {-3,-1,0,1..8} x InitialInterval 0..8 ms (+odd ns) x MaxInterval 0..40 ms x Multiplier {1/2,1,5/4,3/2,2,9/4,3,4,..512} x '
                 'RandomizationFactor {0,1/4,1/2,1} x OnRetryHook/Logger set or nil; scripts fail^i then succeed (i = 0..MaxRetries) or fail forever, with 0..3 outputs also '
                 'next to errors; context cancelled by the handler at every attempt index (long and short next wait), by another goroutine in the middle of a wait, '
                 'MaxElapsedTime ending in a long wait or while a slow handler runs (Stop); non-trivial = at least one retry or an early give-up, distinct by '
